@@ -215,13 +215,19 @@ func findFiles(cwd string, patterns []string) (_ []sourcePath, err error) {
 		}
 	}
 
-	sortedPaths := make([]sourcePath, 0, len(files))
-	for _, p := range files {
-		sortedPaths = append(sortedPaths, p)
+	// The files are processed in the order of their resolved paths: a
+	// file that was named in several ways has its place in that order
+	// whichever of its names was given last.
+	keys := make([]string, 0, len(files))
+	for key := range files {
+		keys = append(keys, key)
 	}
-	sort.Slice(sortedPaths, func(i, j int) bool {
-		return sortedPaths[i].Absolute < sortedPaths[j].Absolute
-	})
+	sort.Strings(keys)
+
+	sortedPaths := make([]sourcePath, 0, len(files))
+	for _, key := range keys {
+		sortedPaths = append(sortedPaths, files[key])
+	}
 
 	return sortedPaths, err
 }
